@@ -225,7 +225,10 @@ func c02(c *Ctx) {
 				ctlUpd = u
 			}
 		}
-		if len(add) != 1 || ctlUpd == nil {
+		if len(add) == 0 && ctlUpd != nil {
+			// the controlling update is there, the call that refuses an object another controller owns is not
+			c.R.Bad(site(ctlUpd)+" needs ok(AddControllerReference)", c.pos(ctlUpd.Pos()), "the controlling Update of the desired object is not preceded by meta.AddControllerReference (which fails when another controller owns the object): an object controlled by someone else is taken over")
+		} else if len(add) != 1 || ctlUpd == nil {
 			c.R.Unknown(load.FuncName(upd)+": shape", c.pos(upd.Pos()), "expected AddControllerReference and Update(desired)")
 		} else {
 			c.requireCross(site(ctlUpd)+" after-AddControllerReference", ctlUpd, okEdges(add[0]), "ok(meta.AddControllerReference)")
